@@ -263,6 +263,20 @@ func cleanupLogic(c *Ctx) {
 	// (the value may come out of a helper that is analysed as part of this function)
 	low, lowFn := sl.Low, q.fn
 	for {
+		if prm, isPrm := low.(*ssa.Parameter); isPrm && an.IsTransparent(prm.Parent()) {
+			// a parameter of a helper analysed as part of this function: the argument at its only call site
+			site := an.TransparentSite(prm.Parent())
+			moved := false
+			for i, pp := range prm.Parent().Params {
+				if pp == prm && site != nil && i < len(site.Call.Args) {
+					low, lowFn, moved = site.Call.Args[i], site.Parent(), true
+				}
+			}
+			if moved {
+				continue
+			}
+			break
+		}
 		call, isCall := low.(*ssa.Call)
 		if !isCall {
 			break
